@@ -27,7 +27,7 @@ COOKIE_ID = b'77'
 COOKIE = b'00112233445566778899aabbccddeeff0011223344556677'
 SERVER_CHALLENGE = b'feedface0123'
 
-SYMS = ['REJECTED', 'REJECTED_mechs', 'ERROR', 'ERROR_text', 'OK_guid', 'OK', 'OK_badhex', 'DATA', 'DATA_cookie',
+SYMS = ['REJECTED', 'REJECTED_mechs', 'ERROR', 'ERROR_text', 'OK_guid', 'OK', 'OK_badhex', 'OK_spaced', 'DATA', 'DATA_cookie',
         'DATA_junkhex', 'AGREE_UNIX_FD', 'junk', 'junk_lower', 'empty']
 
 LINE = {
@@ -38,6 +38,7 @@ LINE = {
     'OK_guid': b'OK ' + GUID,
     'OK': b'OK',
     'OK_badhex': b'OK zz',
+    'OK_spaced': b'OK 0123456789abcdef 0123456789abcdef',
     'DATA': b'DATA',
     'DATA_cookie': b'DATA ' + binascii.hexlify(COOKIE_CTX + b' ' + COOKIE_ID + b' ' + SERVER_CHALLENGE),
     'DATA_junkhex': b'DATA ' + binascii.hexlify(b'what is this'),
